@@ -155,7 +155,65 @@ def decode_tree(tree, tokens_root="/sim/tokens"):
                 td.objects[name] = parse_object(data)
             except FormatError as e:
                 td.objects[name] = e
+        elif name == "sqlite3.db":
+            decode_db(td, data)
     return toks
+
+# ---------------------------------------------------------------- the SQLite object store, decoded independently (Python's sqlite3 module reads the raw database image; no SoftHSM code)
+#   object(id)                               id 1 = token info (label, serial, flags, PIN blobs), every other id = one token object
+#   attribute_boolean(value,type,object_id)  0 / 1
+#   attribute_integer(value,type,object_id)  CK_ULONG printed as a signed 64-bit integer
+#   attribute_binary(value blob,type,object_id)  byte strings (private ones encrypted like in the file store); CKA_ALLOWED_MECHANISMS = concatenated native-endian 8-byte mechanism numbers
+#   attribute_array(value blob,type,object_id)   nested template: { u64le type, u32le kind(1 bool,2 ulong,3 bytes,5 mech set), value }*  value: bool 1 byte | u64le | u64le n + n bytes
+def parse_db_attr_map(b):
+    out = {}; off = 0
+    def need(n):
+        if off + n > len(b): raise FormatError("attribute array cut at %d" % off)
+    while off < len(b):
+        need(12); t = int.from_bytes(b[off:off + 8], "little"); kind = int.from_bytes(b[off + 8:off + 12], "little"); off += 12
+        if kind == 1:
+            need(1); out[t] = ("b", b[off] != 0); off += 1
+        elif kind == 2:
+            need(8); out[t] = ("u", int.from_bytes(b[off:off + 8], "little")); off += 8
+        elif kind in (3, 5):
+            need(8); n = int.from_bytes(b[off:off + 8], "little"); off += 8
+            need(n); v = b[off:off + n]; off += n
+            out[t] = ("x", v) if kind == 3 else ("m", sorted(int.from_bytes(v[i:i + 8], "little") for i in range(0, len(v), 8)))
+        else:
+            raise FormatError("attribute array kind %d" % kind)
+    return out
+
+def decode_db(td, data):
+    import sqlite3
+    try:
+        con = sqlite3.connect(":memory:")
+        con.deserialize(data)
+        objs = {}
+        for (oid,) in con.execute("select id from object"): objs[oid] = {}
+        for (v, t, oid) in con.execute("select value,type,object_id from attribute_boolean"): objs.setdefault(oid, {})[t] = ("b", bool(v))
+        for (v, t, oid) in con.execute("select value,type,object_id from attribute_integer"): objs.setdefault(oid, {})[t] = ("u", v & ((1 << 64) - 1))
+        for (v, t, oid) in con.execute("select value,type,object_id from attribute_binary"):
+            v = bytes(v) if v is not None else b""
+            if t == K.CKA_ALLOWED_MECHANISMS: objs.setdefault(oid, {})[t] = ("m", sorted(int.from_bytes(v[i:i + 8], "little") for i in range(0, len(v), 8)))
+            else: objs.setdefault(oid, {})[t] = ("x", v)
+        for (v, t, oid) in con.execute("select value,type,object_id from attribute_array"):
+            try: objs.setdefault(oid, {})[t] = ("t", parse_db_attr_map(bytes(v) if v is not None else b""))
+            except FormatError as e: objs[oid] = e
+        con.close()
+    except Exception as e:
+        td.token_error = "sqlite3.db: %s" % e; return
+    td.backend = "db"
+    at = objs.pop(1, None)
+    if isinstance(at, dict):
+        td.label = at.get(K.CKA_OS_TOKENLABEL, (None, None))[1]
+        ser = at.get(K.CKA_OS_TOKENSERIAL, (None, None))[1]
+        td.serial = ser.decode("latin-1") if ser is not None else None
+        td.flags = at.get(K.CKA_OS_TOKENFLAGS, (None, None))[1]
+        td.so_blob = at.get(K.CKA_OS_SOPIN, (None, None))[1]
+        td.user_blob = at.get(K.CKA_OS_USERPIN, (None, None))[1]
+        td.token_attrs = at
+    for oid, a in objs.items():
+        td.objects["db:%d" % oid] = a if isinstance(a, Exception) else (None, a)
 
 def object_view(attrs, mk):
     """plain attribute values of one decoded object: {type: bytes|bool|int|list}; byte strings of private objects are decrypted with mk.
